@@ -103,6 +103,7 @@ def attempt(prop, comp, group, ob, rep):
 
 
 def cleanup():
+    _built.clear()
     shutil.rmtree(os.path.join(ROOT, 'build', 'native', str(os.getpid())), ignore_errors=True)
 
 
